@@ -21,6 +21,7 @@ def queries(tier):
                     first_has_key_first = (ordm & 1) == 0
                     differs = any(((ordm >> i) & 1) != (ordm & 1) for i in range(n))
                     for mk in (0, 1, 2, 3):
+                      if mk in (2, 3) and n != 2: continue
                       if mk == 3 and (kind != 0 or pat != 0 or (tier == 'quick' and ordm not in (0, 3))): continue
                       if mk == 1 and kind != 0 and tier == 'quick': continue
                       if mk == 2 and (kind != 0 or (tier == 'quick' and ordm not in (0, 1))): continue
